@@ -41,6 +41,7 @@ PATTERNS = [
     (r"\{:p\}", "pointer formatting"),
     (r"\bptr::eq\b|as\s+\*const\b|as\s+\*mut\b|\.as_ptr\(\)|\baddr\(\)", "pointer value"),
     (r"\brand::|\bthread_rng\b", "random source"),
+    (r"\*const\s+[A-Za-z_(\[]|\*mut\s+[A-Za-z_(\[]|\bNonNull\b", "raw pointer type"),
 ]
 # (file suffix, pattern label, regex the line must match) — the reviewed, allowed uses
 ALLOW = [
